@@ -743,7 +743,8 @@ def can_follow(prev, nxt, opt=None):
             return False
         if leaf.kind == 'para':
             return can_follow(leaf, nxt, opt)             # what can interrupt that paragraph also ends its lazy continuation
-        if leaf.kind in ('atx', 'hr') or (leaf.kind == 'fence' and leaf.closed):
+        if leaf.kind in ('atx', 'hr', 'setext') or (leaf.kind == 'fence' and leaf.closed):
+            # (a setext heading is complete with its underline: the paragraph it was read from is not open any more)
             if nk in ('para', 'setext', 'table'):
                 # nothing is open that the line could continue lazily: it starts a new paragraph after the container
                 return bool(opt is None or opt.para_after_closed_container)
